@@ -1945,6 +1945,19 @@ fn c12_lifecycle(ctx: &mut Ctx) {
             if verd(&once) != v1 || show(&once) != p1 { bad = Some(format!("validate() changed an optimised rule (switches {})", m1)); }
             if show(&rule) != p0 || verd(&rule) != v0 { bad = Some(format!("optimising a clone (switches {}) changed the original", m1)); }
         }
+        // a rule that has been used (validate, matches, clone) optimises to what a freshly loaded
+        // rule optimises to, for every switch combination: nothing the solver may have kept from
+        // earlier evaluations takes part in optimise()
+        for m in 0..16u64 {
+            let fresh = match Rule::from_value(implside::rule_value(&c)) { Ok(r) => r.optimise(implside::opts(m)), Err(_) => break };
+            let used = rule.clone().optimise(implside::opts(m));
+            let _ = rule.matches(*docs.first().unwrap_or(&&Mapping::new()));
+            let used2 = { let r2 = Rule::from_value(implside::rule_value(&c)).unwrap(); for d in &docs { let _ = r2.matches(*d); } r2.optimise(implside::opts(m)) };
+            if show(&fresh) != show(&used) || verd(&fresh) != verd(&used) || show(&fresh) != show(&used2) || verd(&fresh) != verd(&used2) {
+                bad = Some(format!("optimise (switches {}) of a rule that was matched / validated before differs from optimise of a freshly loaded rule: fresh {} / used {} / matched-only {}", m, show(&fresh), show(&used), show(&used2)));
+                break;
+            }
+        }
         if let Some(what) = bad {
             ctx.violation("oracle", &what, &dummy, &rule_yaml(&c), true);
         }
